@@ -30,5 +30,11 @@ CHECK = {
             "shards": {"quick": 16, "thorough": 16},
             "budget_s": {"quick": 60, "thorough": 900},
         },
+        {
+            "name": "c04-report", "pkg": CC, "rewrite": [CC], "harness": H,
+            "test": "^TestVerifC04Report$",
+            "shards": {"quick": 16, "thorough": 16},
+            "budget_s": {"quick": 60, "thorough": 300},
+        },
     ],
 }
